@@ -17,7 +17,7 @@ import plans
 HERE = os.path.dirname(os.path.dirname(os.path.abspath(__file__)))
 REPO = os.environ.get("REPO", "/repo")
 GOENV = dict(os.environ, GOFLAGS="-mod=mod", GOPROXY="off", GOSUMDB="off", GOTOOLCHAIN="local")
-ALL_CMDS = ["inorun"]
+ALL_CMDS = ["inorun", "opsrun"]
 JOBS = int(os.environ.get("VERIF_JOBS", "12"))
 
 
@@ -36,8 +36,25 @@ def scratch():
 
 # ----------------------------------------------------------------------------- build
 
+NEED_EXTRACT = {"opsrun", "kqrun", "diffrun"}
+
+
 def build(cmd, race=False, tags="verif"):
     """Build harness/cmd/<cmd> against $REPO's working tree. Returns the binary path."""
+    if cmd in NEED_EXTRACT:
+        import fcntl
+        os.makedirs(os.path.join(HERE, "work"), exist_ok=True)
+        with open(os.path.join(HERE, "work", "extract.lock"), "w") as lk:
+            fcntl.flock(lk, fcntl.LOCK_EX)
+            hdir = os.path.join(HERE, "harness")
+            p = subprocess.run(["go", "run", "./cmd/extract", "-repo", REPO, "-out", "zz_gen/CUR"], cwd=hdir, env=GOENV, capture_output=True, text=True)
+            if p.returncode != 0:
+                raise Infra("extraction of backend sources from %s failed:\n%s" % (REPO, (p.stdout + p.stderr)[-3000:]))
+            return _build(cmd, race, tags)
+    return _build(cmd, race, tags)
+
+
+def _build(cmd, race=False, tags="verif"):
     hdir = os.path.join(HERE, "harness")
     outdir = os.path.join(HERE, "work", "bin")
     os.makedirs(outdir, exist_ok=True)
